@@ -23,6 +23,51 @@ def roles_ready(env, F, b, A, T):
     return all(any(v == w for v in env.values()) for w in want)
 
 
+def axis_columns(chk):
+    """The loader that serves the sigma*_eigenvecs{Min,Mid,Maj}* columns: the decoder's result tuple is unpacked in the decoder's order
+    (minor, middle, major -- C18-R4 decides what the decoder returns) and every store `columns[<name built with 'Min'|'Mid'|'Maj'>] = <axis>` pairs
+    Min with the first, Mid with the second, Maj with the third component."""
+    src = chk.src
+    setup = src.func(CAT, 'CompaSOHaloCatalog._setup_halo_field_loaders')
+    lds = [n for n in ast.walk(setup) if isinstance(n, ast.FunctionDef) and n is not setup and any(isinstance(c, ast.Call) and dotted(c.func) == '_unpack_euler16' for c in ast.walk(n))]
+    if len(lds) != 1:
+        raise AnalysisError(f'eigenvector loader not found ({len(lds)} candidates)')
+    ld = lds[0]
+    un = [n for n in ast.walk(ld) if isinstance(n, ast.Assign) and isinstance(n.value, ast.Call) and dotted(n.value.func) == '_unpack_euler16']
+    comp = {}
+    if len(un) == 1 and isinstance(un[0].targets[0], ast.Tuple) and len(un[0].targets[0].elts) == 3 and all(isinstance(e, ast.Name) for e in un[0].targets[0].elts):
+        comp = {e.id: k for k, e in enumerate(un[0].targets[0].elts)}
+    elif len(un) == 1 and isinstance(un[0].targets[0], ast.Name):
+        comp = {f'{un[0].targets[0].id}[{k}]': k for k in range(3)}
+    sdefs = {}
+    for n in ast.walk(ld):
+        if isinstance(n, ast.Assign) and len(n.targets) == 1 and isinstance(n.targets[0], ast.Name):
+            sdefs.setdefault(n.targets[0].id, []).append(n.value)
+    found = {}
+    problems = []
+    for n in ast.walk(ld):
+        if isinstance(n, ast.Assign) and len(n.targets) == 1 and isinstance(n.targets[0], ast.Subscript) and isinstance(n.targets[0].value, ast.Name):
+            key = n.targets[0].slice
+            if isinstance(key, ast.Name) and len(sdefs.get(key.id, [])) == 1:
+                key = sdefs[key.id][0]
+            tags = [t for t in ('Min', 'Mid', 'Maj') if any(isinstance(c, ast.Constant) and c.value == t for c in ast.walk(key))]
+            if len(tags) != 1:
+                continue
+            v = unparse(n.value)
+            if v not in comp:
+                problems.append(f'line {n.lineno}: {unparse(n)[:70]} stores something that is not one component of the decoded triple')
+                continue
+            found[tags[0]] = comp[v]
+            if comp[v] != ('Min', 'Mid', 'Maj').index(tags[0]):
+                problems.append(f'line {n.lineno}: the {tags[0]} column receives component #{comp[v]} ({v}) of (minor, middle, major)')
+    if problems:
+        chk.refuted('C18-R6', CAT, 'CompaSOHaloCatalog._setup_halo_field_loaders.eigvecs_loader', 'Min <- minor, Mid <- middle, Maj <- major', '; '.join(problems[:3]) +
+                    ': the column delivers another axis of the code than its name says (still a unit vector of an orthonormal triad, so nothing looks wrong)', node=ld)
+    elif sorted(found) == ['Maj', 'Mid', 'Min']:
+        chk.proven('C18-R6', CAT, 'CompaSOHaloCatalog._setup_halo_field_loaders.eigvecs_loader', 'Min <- minor, Mid <- middle, Maj <- major', f'{found}')
+    # another spelling (a zip of names and axes ...): the pairing is then decided by the imported C02-R6 obligation of this loader alone
+
+
 def run(chk):
     src = chk.src
     fn = src.func(CAT, Q)
@@ -37,6 +82,11 @@ def run(chk):
     chk.rule('C18-R5', 'integer arithmetic on the code cannot wrap: a subtraction whose operands may both be unsigned (the column is uint16) is provably non-negative', 0)
     chk.rule('C18-R2', 'per cap the major axis is a signed permutation of the unit vector (zz,yy,xx), 12 distinct permutations', 13)
     chk.rule('C18-R3', 'minor = (cos az, sin az) on the two non-dominant axes; third component = -(m_a M_a + m_b M_b)/M_k; normalised', 36)
+    chk.rule('C18-R6', 'the loader hands each decoded axis to the column of its own name (Min <- minor, Mid <- middle, Maj <- major) whichever subset of the three '
+                       'columns is requested (obligations C02-R6 for the eigenvector loader)', 1)
+    from . import c02
+    chk.import_from(c02.run, 'C02', ('C02-R6',), 'C18-R6')
+    axis_columns(chk)
     chk.rule('C18-R4', 'middle = minor x major (cyclic Levi-Civita pattern), normalised; returns (minor, middle, major)', 13)
     chk.assume('within-cap injectivity of the real-valued cell map and the 4-degree coverage are numerical properties, not decided')
     A, T = const_of(src, 'EULER_ABIN'), const_of(src, 'EULER_TBIN')
